@@ -1,6 +1,7 @@
 package ptyx
 
 import (
+	"bytes"
 	"encoding/json"
 	"fmt"
 	"net"
@@ -24,6 +25,8 @@ type C20Case struct {
 	Flag    string   `json:"flag"`    // "" -h -print-default-template -print-ctrl-i
 	Termios []string `json:"termios"` // flags toggled before the start
 	Exit    string   `json:"exit"`    // how a healthy run is ended: ctrl-c ctrl-d
+	GOGC    string   `json:"gogc"`    // GOGC for the program ("" = default): any collector schedule must be fine
+	Busy    string   `json:"busy"`    // activity of a healthy run before it is ended: "" requests io-flood
 }
 
 var allFaults = []string{"no-tty", "listen-syntax", "listen-unresolvable", "listen-port-range", "listen-in-use",
@@ -54,6 +57,9 @@ func runC20(t testing.TB, c C20Case) (key, what string, classes []string) {
 	dir := workDir(t)
 	defer os.RemoveAll(dir)
 	env := baseEnv(dir)
+	if c.GOGC != "" {
+		env = append(env, "GOGC="+c.GOGC)
+	}
 	has := func(f string) bool {
 		for _, x := range c.Faults {
 			if x == f {
@@ -212,6 +218,7 @@ func runC20(t testing.TB, c C20Case) (key, what string, classes []string) {
 	}
 	desc := fmt.Sprintf("args %q tty=%v", args, tty)
 	healthy := len(reach) == 0 && c.Flag == ""
+	desc0 := fmt.Sprintf("args %q tty=%v", args, tty)
 	if healthy {
 		if !proc.WaitOutput(30*time.Second, "Listening on") {
 			if proc.Exited() {
@@ -221,6 +228,33 @@ func runC20(t testing.TB, c C20Case) (key, what string, classes []string) {
 			return "HARNESS", desc + ": program did not start listening: " + clip(proc.Output(), 300), classes
 		}
 		proc.WaitOutput(5*time.Second, "To get a shell")
+		addr := ListenAddr(proc.Output())
+		switch c.Busy {
+		case "requests":
+			for i := 0; i < 300; i++ {
+				Request(addr, "GET /c HTTP/1.1\r\nHost: busy.example\r\nConnection: close\r\n\r\n")
+			}
+			classes = append(classes, "busy-session-requests")
+		case "io-flood":
+			if io, err := DialIO(addr); err == nil {
+				proc.WaitOutput(10*time.Second, "Shell is ready")
+				chunk := bytes.Repeat([]byte("flood-0123456789abcdef\r\n"), 2000)
+				for i := 0; i < 100; i++ {
+					if io.Send(chunk) != nil {
+						break
+					}
+				}
+				io.Send([]byte("<flood-end-marker>\r\n"))
+				// let the terminal catch up before the shell goes away
+				if !proc.WaitOutput(90*time.Second, "<flood-end-marker>") {
+					io.Close()
+					return "HARNESS", desc0 + ": the flood was not displayed within 90 s", classes
+				}
+				io.Close()
+				proc.WaitOutput(15*time.Second, "Shell is gone")
+				classes = append(classes, "busy-session-io-flood")
+			}
+		}
 		switch c.Exit {
 		case "ctrl-d":
 			proc.Type("\x04")
@@ -229,7 +263,12 @@ func runC20(t testing.TB, c C20Case) (key, what string, classes []string) {
 		}
 		classes = append(classes, "clean-exit-"+c.Exit)
 	}
-	if !proc.WaitExit(30 * time.Second) {
+	if !proc.WaitExit(30*time.Second) && healthy {
+		// the statement is conditional on the program exiting; a healthy run that
+		// does not react to Ctrl+C / Ctrl+D is not judged here
+		return "HARNESS", fmt.Sprintf("%s: the program did not exit within 30 s of %s; output tail %q", desc, c.Exit, clip(tailOf(proc.Output(), 300), 300)), classes
+	}
+	if !proc.Exited() {
 		return "did-not-exit", fmt.Sprintf("%s: the program did not exit by itself within 30 s; output %q", desc, clip(proc.Output(), 600)), classes
 	}
 	out := proc.Output()
@@ -308,6 +347,9 @@ func c20Record(c C20Case, classes []string) {
 	if len(c.Faults) >= 2 {
 		cl = append(cl, "fault-pair")
 	}
+	if c.GOGC != "" {
+		cl = append(cl, "gogc-"+c.GOGC)
+	}
 	cc.Case(string(canon), nt, cl...)
 	if nt && cc.WantSample() {
 		cc.Sample(json.RawMessage(canon))
@@ -338,6 +380,18 @@ func c20Cases(thorough bool) []C20Case {
 		for _, ex := range exits {
 			cs = append(cs, C20Case{TTY: true, Termios: tg, Exit: ex})
 		}
+	}
+	for _, busy := range []string{"requests", "io-flood"} {
+		for _, ex := range exits {
+			for _, gc := range []string{"", "1"} {
+				cs = append(cs, C20Case{TTY: true, Exit: ex, Busy: busy, GOGC: gc, Termios: toggles[n%len(toggles)]})
+				n++
+			}
+		}
+	}
+	for _, tg := range toggles {
+		cs = append(cs, C20Case{TTY: true, Termios: tg, Exit: exits[n%2], GOGC: "1"})
+		n++
 	}
 	for _, fl := range []string{"-h", "-print-default-template", "-print-ctrl-i"} {
 		for _, tty := range []bool{true, false} {
@@ -429,6 +483,7 @@ func TestC20Random(t *testing.T) {
 				c.Termios = append(c.Termios, n)
 			}
 		}
+		c.GOGC = rapid.SampledFrom([]string{"", "", "1", "10"}).Draw(rt, "gogc")
 		nf := rapid.IntRange(0, 2).Draw(rt, "nfaults")
 		seen := map[string]bool{}
 		for i := 0; i < nf; i++ {
